@@ -47,6 +47,7 @@ func main() {
 	primsPerms(r)
 	e2eC22(r)
 	e2eEmdFalse(r)
+	r.CountN("baseline-lost-object-kept-by-encrypted-pipeline", baselineLostTotal)
 }
 
 type testDoc struct {
